@@ -24,6 +24,7 @@
 #
 # Author: Ilya Baldin (ibaldin@renci.org)
 from typing import List, Dict, Tuple
+import copy
 import json
 import re
 
@@ -51,7 +52,9 @@ class JSONField(ABC):
         assert isinstance(lab, JSONField)
         inst = lab.__class__()
         for k, v in lab.__dict__.items():
-            inst.__setattr__(k, v)
+            # list-valued fields are copied so that the new instance shares no mutable
+            # state with the original
+            inst.__setattr__(k, copy.deepcopy(v) if isinstance(v, list) else v)
         inst._set_fields(**kwargs)
         return inst
 
